@@ -331,13 +331,61 @@ def _ite(test, a, b, problems):
     return None
 
 
+def owner_resolver(fn):
+    """name -> FunctionDef of a method of the class `fn` was defined in (through the MRO), for a FunctionDef that came out of
+    pymodel.Package; None for any other node"""
+    own = getattr(fn, "_sa_owner", None)
+    if own is None:
+        return None
+    pkg, cls = own
+
+    def resolve(name):
+        try:
+            return pkg.resolve(cls, name)[1]
+        except Exception:
+            return None
+    return resolve
+
+
+class _PredicateCalls(ast.NodeTransformer):
+    """`self.helper(o)` with `helper` a predicate method of the class (returned_bool reads it as one boolean expression) -> that
+    expression with the helper's parameters replaced by the arguments"""
+
+    def __init__(self, fn, resolve, depth=0):
+        self.fn, self.resolve, self.depth = fn, resolve, depth
+        self.recv = fn.args.args[0].arg if fn.args.args else "self"
+
+    def visit_Call(self, n):
+        import copy
+        self.generic_visit(n)
+        if isinstance(n.func, ast.Attribute) and isinstance(n.func.value, ast.Name) and n.func.value.id == self.recv and not n.keywords \
+                and not any(isinstance(a, ast.Starred) for a in n.args) and all(isinstance(a, ast.Name) for a in n.args) and self.depth < 3:
+            callee = self.resolve(n.func.attr)
+            if isinstance(callee, ast.FunctionDef) and callee is not self.fn and not callee.decorator_list and len(callee.args.args) == len(n.args) + 1 \
+                    and not (callee.args.vararg or callee.args.kwarg or callee.args.kwonlyargs):
+                sub = returned_bool(callee, self.resolve, self.depth + 1)
+                if sub is not None:
+                    m = {callee.args.args[0].arg: ast.Name(id=self.recv, ctx=ast.Load())}
+                    m.update({p.arg: a for p, a in zip(callee.args.args[1:], n.args)})
+                    return _SubstNames(m).visit(copy.deepcopy(sub))
+        return n
+
+
 def eq_disjuncts(fn: ast.FunctionDef, resolve=None):
-    """DNF of the value `__eq__` returns for two instances. -> (list of literal lists, problems).  With `resolve(name) ->
-    FunctionDef | None`, calls `self.helper(o)` of predicate helpers of the same class are replaced by what the helper returns."""
+    """DNF of the value `__eq__` returns for two instances. -> (list of literal lists, problems).  Predicate helpers of the same
+    class called on self (`self._same_grain(o)`) are read through: `resolve(name) -> FunctionDef | None`, by default the methods of
+    the class the function came from (pymodel)."""
+    import copy
     args = [a.arg for a in fn.args.args]
     selfname, oname = args[0], args[1]
     problems = []
-    d = _body_dnf(list(fn.body), {}, problems, (lambda e: _inline_predicates(e, selfname, fn, resolve)) if resolve is not None else (lambda e: e))
+    resolve = resolve or owner_resolver(fn)
+    body = list(fn.body)
+    if resolve is not None and any(isinstance(n, ast.Call) and isinstance(n.func, ast.Attribute) and isinstance(n.func.value, ast.Name) and n.func.value.id == selfname
+                                   for n in ast.walk(fn)):
+        tr = _PredicateCalls(fn, resolve)
+        body = [ast.fix_missing_locations(tr.visit(copy.deepcopy(st))) for st in body]
+    d = _body_dnf(body, {}, problems, (lambda e: _inline_predicates(e, selfname, fn, resolve)) if resolve is not None else (lambda e: e))
     if d is None or d == _NI:
         if not problems:
             problems.append(f"no boolean value returned by {fn.name}")
